@@ -213,6 +213,10 @@ func c12runHistory(evs []c12ev, np, max, ttl int) c12result {
 			for _, w := range waiting {
 				if inList(snap.Queue, w) {
 					keep = append(keep, w)
+				} else if e.kind == "accept" && w == p {
+					// a receiver that accepts is from then on waiting (or started): whoever it is,
+					// also one the host had forgotten (idle cleanup) or never saw join
+					addViol(class("accepted-receiver-not-queued"), fmt.Sprintf("step %d (%v): %s accepted but is neither queued nor started", i, e, p))
 				} else if e.kind == "cleanup" && clock-lastHeard[w] <= ttl && !reannounced {
 					addViol("waiting-receiver-dropped", fmt.Sprintf("step %d (cleanup at t=%ds): %s accepted at t=%ds (TTL %ds) and was waiting for a slot, but the idle cleanup dropped it", i, clock, w, lastHeard[w], ttl))
 				}
